@@ -95,6 +95,28 @@ def run(ctx: Ctx):
     # ------------------------------------------------------------- well-formed generated calendars
     calgen.run_generated(ctx, rnd, "C01")
 
+    # ------------------------------------------------------------- fold alignment
+    # a delimiter / escape / multi-octet character at every column around the 75-octet fold, in a value and in a
+    # parameter: the serialiser folds there, the second parse must see the same value
+    specials = ["\r", " ", "\t", "\\\\", "\\,", "\\;", "\\n", "\u00e9", "\U0001F600", '"', ":", ";", ",", "%", "^", "\u0301"]
+    try:
+        for prov in ("zoneinfo", "pytz") if not ctx.quick else ("zoneinfo",):
+            tzp.use(prov)
+            for ch in specials:
+                for n in range(50, 80):
+                    texts = ["BEGIN:VEVENT\r\nDESCRIPTION:" + "x" * n + ch + "yz\r\nEND:VEVENT\r\n"]
+                    if ch not in ('"', "\r"):
+                        texts.append("BEGIN:VTODO\r\nATTENDEE;CN=\"" + "x" * n + ch.replace("\\\\", "\\") + "y\":mailto:a@example.com\r\nEND:VTODO\r\n")
+                    for text in texts:
+                        ctx.case(("align", prov, text), True)
+                        res = pc.real_parse(text, True)
+                        if res[0] != "ok":
+                            continue
+                        for comp in res[1]:
+                            check_stability(ctx, comp, {"align": [ch, n], "provider": prov, "text": text})
+    finally:
+        tzp.use_default()
+
     # ------------------------------------------------------------- fixtures and delimiter mutations
     files = sorted(glob.glob(str(REPO / "src/icalendar/tests/*/*.ics")))
     if len(files) < 50:
@@ -132,6 +154,12 @@ def run(ctx: Ctx):
         "typed values are compared through (property name, value class, parameters, encoded value)",
         "serialisation refused with ValueError is a permitted outcome (C04/C05)",
     ]
+    # ------------------------------------------------------------- SUITE: calls observed in the repository's own tests
+    from vf import suite
+    suite.step(ctx, "parts", ["P:C01"])
+    # ------------------------------------------------------------- FRESH: history independence of returned objects (spec/Fresh.tla)
+    from vf import fresh
+    fresh.step(ctx, "C01")
     return ctx.finish(rule=(
         "accepted abstract line sequences (<= 4/5 lines) concretised with several spellings; generated well-formed calendars with "
         "carried denotation; all fixture calendars and delimiter-token mutations of them, both providers; non-trivial = contains "
